@@ -573,7 +573,7 @@ pub fn run(rep: &Report) {
             }
         }
     }
-    let n = rep.tier.scale(400_000, 20);
+    let n = rep.tier.scale(1_200_000, 8);
     run_family(rep, "default_delimiters", n, || segs_strategy(Delims::default()), |segs, l| check_segments(segs, &Delims::default(), l));
     run_family(rep, "custom_delimiters", n / 2, || delims_strategy().prop_flat_map(|d| (segs_strategy(d.clone()), Just(d))), |(segs, d), l| check_segments(segs, d, l));
     run_family(rep, "plain_text", n / 2, || prop_oneof![2 => Just(Delims::default()), 1 => delims_strategy()].prop_flat_map(|d| (text_strategy(&d, 12), Just(d))), |(t, d), l| check_plain(t, d, l));
